@@ -465,6 +465,18 @@ impl<'g> Cx<'g> {
                     Some(w) => w,
                     None => return self.bail(span, "cannot determine the integer type of this arithmetic operation"),
                 };
+                if self.const_ctx {
+                    // the initialiser of a `const` is evaluated by the compiler: overflow, underflow and division by
+                    // zero are compile errors, so in a program that compiles the exact result is in range
+                    let sym = match op {
+                        Add(_) => "+",
+                        Sub(_) => "-",
+                        Mul(_) => "*",
+                        Div(_) => "/",
+                        _ => "%",
+                    };
+                    return Ok((format!("({} {} {})", l, sym, r), Ty::Int(w)));
+                }
                 let f = match op {
                     Add(_) => "add",
                     Sub(_) => "sub",
@@ -936,7 +948,15 @@ impl<'g> Cx<'g> {
         } else {
             let (src, dst) = match (callee_err, &my_err) {
                 (Ty::Named(a), Ty::Named(b)) => (a.clone(), b.clone()),
-                (Ty::Opaque(a), Ty::Named(b)) => (a.rsplit('.').next().unwrap_or(a).to_string(), b.clone()),
+                // a table-mapped external type: the `From` impl names its Rust type (`impl From<io::Error> for ..`)
+                (Ty::Opaque(a), Ty::Named(b)) => (
+                    crate::manifest::OPAQUE_TYPES
+                        .iter()
+                        .find(|(_, lean)| *lean == a.as_str())
+                        .and_then(|(pat, _)| pat.last().map(|x| x.to_string()))
+                        .unwrap_or_else(|| a.rsplit('.').next().unwrap_or(a).to_string()),
+                    b.clone(),
+                ),
                 _ => return self.bail(span, "`?` with an error conversion between these types is not supported"),
             };
             match self.g.from_impls.iter().find(|(s, d, _)| *s == src && *d == dst) {
@@ -1119,6 +1139,29 @@ impl<'g> Cx<'g> {
                 return self.bail(whole.span(), "`Cursor::new` needs a byte slice");
             }
             return Ok((format!("(RustSem.ReadCursor.new {})", t), Ty::Named("ReadCursor".into())));
+        }
+        // std::net
+        if segs.len() >= 2 && (segs[segs.len() - 2] == "Ipv4Addr" || segs[segs.len() - 2] == "Ipv6Addr") && last == "from" && args.len() == 1 {
+            let (t, ty) = self.expr(args[0], None, stmts)?;
+            if !matches!(&ty, Ty::List(e, ListKind::Array) if matches!(**e, Ty::Int(8))) {
+                return self.bail(whole.span(), "`Ipv4Addr::from` / `Ipv6Addr::from` need a byte array");
+            }
+            return Ok((t, Ty::List(Box::new(Ty::u8()), ListKind::Array)));
+        }
+        if segs.len() >= 2 && segs[segs.len() - 2] == "IpAddr" && (last == "V4" || last == "V6") && args.len() == 1 {
+            let (t, ty) = self.expr(args[0], None, stmts)?;
+            if !matches!(&ty, Ty::List(e, _) if matches!(**e, Ty::Int(8))) {
+                return self.bail(whole.span(), "`IpAddr::V4` / `IpAddr::V6` need an `Ipv4Addr` / `Ipv6Addr`");
+            }
+            return Ok((format!("(RustSem.IpAddr.{} {})", if last == "V4" { "v4" } else { "v6" }, t), Ty::Opaque("RustSem.IpAddr".into())));
+        }
+        if segs.len() >= 2 && segs[segs.len() - 2] == "SocketAddr" && last == "new" && args.len() == 2 {
+            let (ip, it) = self.expr(args[0], None, stmts)?;
+            if !matches!(&it, Ty::Opaque(o) if o == "RustSem.IpAddr") {
+                return self.bail(whole.span(), "`SocketAddr::new` needs an `IpAddr`");
+            }
+            let (port, _) = self.expr(args[1], Some(&Ty::Int(16)), stmts)?;
+            return Ok((format!("(RustSem.SocketAddr.new {} {})", ip, port), Ty::Opaque("RustSem.SocketAddr".into())));
         }
         if segs.len() == 2 && segs[0] == "BTreeSet" && last == "new" && args.is_empty() {
             let t = match exp {
@@ -1379,6 +1422,48 @@ impl<'g> Cx<'g> {
                 stmts.push(Stmt::Bind(v.clone(), d));
                 Ok((v, bt))
             }
+            (Ty::List(t, ListKind::Iter), "filter", 1) => {
+                // `iter.filter(|x| e)` with a closure whose body is a pure expression
+                let (x, body) = match args[0] {
+                    syn::Expr::Closure(c) if c.inputs.len() == 1 && c.capture.is_none() => match &c.inputs[0] {
+                        syn::Pat::Ident(pi) if pi.subpat.is_none() => (pi.ident.to_string(), &*c.body),
+                        syn::Pat::Reference(pr) => match &*pr.pat {
+                            syn::Pat::Ident(pi) if pi.subpat.is_none() => (pi.ident.to_string(), &*c.body),
+                            o => return self.bail(o.span(), "unsupported closure parameter"),
+                        },
+                        o => return self.bail(o.span(), "unsupported closure parameter"),
+                    },
+                    o => return self.bail(o.span(), "only simple closures `|x| expr` are supported here"),
+                };
+                self.check_local_name(&x, args[0].span())?;
+                if !self.assigned_in_expr(body).is_empty() {
+                    return self.bail(args[0].span(), "closure must not assign outer variables");
+                }
+                self.push_scope(vec![(x.clone(), (**t).clone())]);
+                let mut bs: Vec<Stmt> = Vec::new();
+                let rb = self.expr(body, Some(&Ty::Bool), &mut bs);
+                self.pop_scope();
+                let (b, bt) = rb?;
+                if !bs.is_empty() || !matches!(bt, Ty::Bool) {
+                    return self.bail(args[0].span(), "the closure of `filter` must be a pure boolean expression");
+                }
+                Ok((format!("(List.filter (fun {} => {}) {})", lean_ident(&x), b, r), Ty::List(t.clone(), ListKind::Iter)))
+            }
+            (Ty::List(_, ListKind::Iter), "count", 0) => Ok((format!("(RustSem.len {})", r), Ty::usize())),
+            (Ty::List(t, ListKind::Iter), "flatten", 0) => match &**t {
+                // an iterator over `Option<T>`: its `Some` values in order
+                Ty::Opt(inner) => Ok((format!("(List.filterMap (fun x => x) {})", r), Ty::List(inner.clone(), ListKind::Iter))),
+                _ => self.bail(whole.span(), "`flatten` is only supported on an iterator over `Option`s"),
+            },
+            // std::net
+            (Ty::Opaque(o), "port", 0) if o == "RustSem.SocketAddr" || o == "RustSem.SocketAddrV4" || o == "RustSem.SocketAddrV6" => {
+                Ok((format!("(RustSem.SocketAddr.port {})", r), Ty::Int(16)))
+            }
+            (Ty::Opaque(o), "ip", 0) if o == "RustSem.SocketAddrV4" || o == "RustSem.SocketAddrV6" => {
+                Ok((format!("(RustSem.SocketAddr.ip_octets {})", r), Ty::List(Box::new(Ty::u8()), ListKind::Array)))
+            }
+            (Ty::List(e, ListKind::Array), "octets", 0) if matches!(**e, Ty::Int(8)) => Ok((r, Ty::List(Box::new(Ty::u8()), ListKind::Array))),
+            (Ty::SInt(32), "to_le_bytes", 0) => Ok((format!("(RustSem.i32_to_le_bytes {})", r), Ty::List(Box::new(Ty::u8()), ListKind::Array))),
             (Ty::Opt(t), "unwrap_or", 1) => {
                 let (d, _) = self.expr(args[0], Some(t), stmts)?;
                 Ok((format!("(Option.getD {} {})", r, d), (**t).clone()))
